@@ -202,6 +202,28 @@ func build(fs []fieldSpec, msgMode bool, variant int, tagMode bool) (reflect.Val
 	return p, o, strings.Join(desc, "; ")
 }
 
+// altSep, when set, is installed as the library's clause separator (the exported ErrEndFlag) for the duration of one
+// call; the result is read back with the default separator substituted, so the same oracle applies.
+var altSep string
+
+type sepErr struct{ s string }
+
+func (e sepErr) Error() string { return e.s }
+
+func withSep(f func() error) error {
+	if altSep == "" {
+		return f()
+	}
+	old := valid.ErrEndFlag
+	valid.ErrEndFlag = altSep
+	defer func() { valid.ErrEndFlag = old }()
+	err := f()
+	if err == nil {
+		return nil
+	}
+	return sepErr{strings.ReplaceAll(err.Error(), altSep, old)}
+}
+
 func evalCase(c *runner.Ctx, fs []fieldSpec, msgMode bool, variant int, tagMode bool) {
 	viaSet := variant == 3 // per-call rules collected with RM.Set, one call with all rules or one call per rule
 	if viaSet {
@@ -242,9 +264,9 @@ func evalCase(c *runner.Ctx, fs []fieldSpec, msgMode bool, variant int, tagMode 
 		_ = valid.Struct(nil, leak)
 		_ = valid.Struct(reflect.Zero(p.Type()).Interface(), leak)
 		if tagMode {
-			err = valid.Struct(p.Interface())
+			err = withSep(func() error { return valid.Struct(p.Interface()) })
 		} else {
-			err = valid.Struct(p.Interface(), callRM)
+			err = withSep(func() error { return valid.Struct(p.Interface(), callRM) })
 		}
 	})
 	exp := walk.Struct(p.Interface(), o)
@@ -399,6 +421,25 @@ func run(c *runner.Ctx) {
 		}
 	}
 	recursive(c)
+	// the caller chose another clause separator: every clause ends with it, none trails
+	for _, sp := range []string{"\t", " ## ", "§§"} {
+		altSep = sp
+		c.Space(fmt.Sprintf("one-field/separator=%q", sp))
+		for k := range kinds {
+			for _, items := range l2 {
+				for _, v := range kinds[k].vals {
+					if !c.Take() {
+						continue
+					}
+					for _, mm := range []bool{false, true} {
+						evalCase(c, []fieldSpec{{k, items, v}}, mm, 0, true)
+						evalCase(c, []fieldSpec{{k, items, v}, {0, l1[len(l1)-1], ""}}, mm, 0, false)
+					}
+				}
+			}
+		}
+	}
+	altSep = ""
 	// F3: three fields, lists up to length 1
 	c.Space("three-fields")
 	for k0 := 0; k0 < 2; k0++ {
